@@ -19,6 +19,7 @@ An *edit program* drives `EditSubsetMode.update` with Replace/And/Or/Xor/AndNot/
 New modes over a DataCollection and compares every group's mask with the
 6-line table applied to numpy masks.
 """
+import json
 import operator
 import traceback
 
@@ -26,8 +27,10 @@ import numpy as np
 
 from glue.core.edit_subset_mode import (AndMode, AndNotMode, EditSubsetMode, NewMode, OrMode, ReplaceMode, XorMode)
 from glue.core.exceptions import IncompatibleAttribute
-from glue.core.subset import (AndState, InvertState, MultiOrState, OrState, Subset, SubsetState, XorState,
-                              combine_multiple)
+from glue.core.hub import HubListener
+from glue.core.message import SubsetCreateMessage, SubsetUpdateMessage
+from glue.core.subset import (AndState, InequalitySubsetState, InvertState, MultiOrState, OrState, RangeSubsetState,
+                              Subset, SubsetState, XorState, combine_multiple)
 from glue.core.subset_group import SubsetGroup
 
 from vf import common
@@ -65,14 +68,15 @@ BIN_CLS = {"and": AndState, "or": OrState, "xor": XorState}
 BINARY_NODES = ["and", "or", "xor", "cls_and", "cls_or", "cls_xor", "s_and", "s_or", "s_xor", "g_and", "g_or", "g_xor"]
 UNARY_NODES = ["not", "cls_not", "s_not", "g_not"]
 NARY_NODES = ["multior", "cm_and", "cm_or", "cm_xor"]
-ALL_NODE_KINDS = BINARY_NODES + UNARY_NODES + NARY_NODES
+IDENT_NODES = ["s_asmask", "copied", "pasted"]     # the same selection again: as a mask, as a copy, pasted into a subset
+ALL_NODE_KINDS = BINARY_NODES + UNARY_NODES + NARY_NODES + IDENT_NODES
 SHARING_NODES = set(NARY_NODES)       # hold (some of) their operands by reference
 VIEW_KINDS = ["none", "none", "ellipsis", "bare_slice", "slice_tuple_full", "slice_tuple_short", "int_slice_mix",
               "index_arrays", "bool_mask"]
 MODES = {"replace": ReplaceMode, "and": AndMode, "or": OrMode, "xor": XorMode, "andnot": AndNotMode, "new": NewMode}
 
-N_TREE_BLOCKS = {"quick": 700, "thorough": 5000}
-N_EDIT_BLOCKS = {"quick": 300, "thorough": 2500}
+N_TREE_BLOCKS = {"quick": 480, "thorough": 5000}
+N_EDIT_BLOCKS = {"quick": 240, "thorough": 2500}
 TREES_PER_BLOCK = 6
 EDITS_PER_BLOCK = 4
 MAX_DEPTH = {"quick": 4, "thorough": 6}
@@ -89,8 +93,10 @@ def gen_tree(rng, depth, nleaf):
     r = rng.random()
     if r < 0.62:
         return [rng.choice(BINARY_NODES), gen_tree(rng, depth - 1, nleaf), gen_tree(rng, depth - 1, nleaf)]
-    if r < 0.80:
+    if r < 0.78:
         return [rng.choice(UNARY_NODES), gen_tree(rng, depth - 1, nleaf)]
+    if r < 0.84:
+        return [rng.choice(IDENT_NODES), gen_tree(rng, depth - 1, nleaf)]
     return [rng.choice(NARY_NODES), [gen_tree(rng, depth - 1, nleaf) for _ in range(rng.randint(1, 4))]]
 
 
@@ -126,13 +132,23 @@ def subst(t, names):
     return [t[0]] + [subst(x, names) for x in t[1:]]
 
 
+def has_op(t, name):
+    return name in tree_ops(t)
+
+
 def ev(t, M, emptied=None):
-    """numpy evaluation of a tree over leaf masks M (dict leaf index -> bool array)."""
+    """numpy evaluation of a tree over leaf masks M (dict leaf index -> bool array).  `emptied`, when given, is
+    (Mfull, view): a selection turned into a mask (state_as_mask) was evaluated in full when it was built and is only
+    then restricted to the view."""
     k = t[0]
     if k == "leaf":
         return M[t[1]]
+    if k == "s_asmask" and emptied is not None:
+        return ev(t[1], emptied[0], None)[emptied[1]]
     if k in UNARY_NODES:
         return ~ev(t[1], M, emptied)
+    if k in IDENT_NODES:
+        return ev(t[1], M, emptied)
     if k in NARY_NODES:
         parts = [ev(x, M, emptied) for x in t[1]]
         op = operator.or_ if k == "multior" else BIN[base_op(k)]
@@ -153,6 +169,8 @@ def ev_copy_model(t, M, lossy, parent_copies=False):
         return np.zeros_like(m) if (parent_copies and t[1] in lossy) else m
     if k in UNARY_NODES:
         return ~ev_copy_model(t[1], M, lossy, True)
+    if k in IDENT_NODES:
+        return ev_copy_model(t[1], M, lossy, k != "s_asmask")
     if k in NARY_NODES:
         if k == "multior":
             copies = False          # children are held by reference, MultiOrState.copy() shares them
@@ -186,10 +204,10 @@ def diagnose(W, descs, tree, M, got, top_copied=False):
     return {"explained_by": None}
 
 
-def judge(W, descs, tree, M, got, exp, full, top_copied=False):
+def judge(W, descs, tree, M, got, exp, full, top_copied=False, shape=None):
     """None when `got` is the expected mask; otherwise (kind, diagnosis, detail)."""
     g = np.asarray(got)
-    if g.shape != exp.shape or (full and g.shape != tuple(W.shape)):
+    if g.shape != exp.shape or (full and g.shape != tuple(W.shape if shape is None else shape)):
         kind = "shape_mismatch"
         detail = {"got_shape": list(g.shape), "expected_shape": list(exp.shape)}
     elif not np.array_equal(g.astype(bool), exp):
@@ -214,40 +232,54 @@ class Node(object):
         self.skip = False
 
 
-def build(W, t, leaves, nodes, parent_kind):
+def build(W, t, leaves, nodes, parent_kind, target=None):
     """Build the glue state for tree t with the real operators; every sub-expression object is recorded as an
     operand (with its fingerprint) *before* its parent is constructed from it."""
     k = t[0]
+    target = W.d if target is None else target
     if k == "leaf":
         obj = leaves[t[1]]
     elif k in UNARY_NODES:
-        a = build(W, t[1], leaves, nodes, k)
+        a = build(W, t[1], leaves, nodes, k, target)
         if k == "not":
             obj = ~a
         elif k == "cls_not":
             obj = InvertState(a)
         elif k == "s_not":
-            s = Subset(W.d)
+            s = Subset(target)
             s.subset_state = a
             obj = (~s).subset_state
         else:
             obj = ~SubsetGroup(subset_state=a)
+    elif k in IDENT_NODES:
+        a = build(W, t[1], leaves, nodes, k, target)
+        if k == "copied":
+            obj = a.copy()
+        elif k == "pasted":
+            src, dst = Subset(target), Subset(target)
+            src.subset_state = a
+            dst.paste(src)
+            obj = dst.subset_state
+        else:
+            src = Subset(target)
+            src.subset_state = a
+            obj = src.state_as_mask()
     elif k in NARY_NODES:
-        parts = [build(W, x, leaves, nodes, k) for x in t[1]]
+        parts = [build(W, x, leaves, nodes, k, target) for x in t[1]]
         if k == "multior":
             obj = MultiOrState(list(parts))
         else:
             obj = combine_multiple(list(parts), BIN[base_op(k)])
     else:
-        a = build(W, t[1], leaves, nodes, k)
-        b = build(W, t[2], leaves, nodes, k)
+        a = build(W, t[1], leaves, nodes, k, target)
+        b = build(W, t[2], leaves, nodes, k, target)
         o = base_op(k)
         if k in BIN:
             obj = BIN[k](a, b)
         elif k.startswith("cls_"):
             obj = BIN_CLS[o](a, b)
         elif k.startswith("s_"):
-            sa, sb = Subset(W.d), Subset(W.d)
+            sa, sb = Subset(target), Subset(target)
             sa.subset_state, sb.subset_state = a, b
             obj = BIN[o](sa, sb).subset_state
         else:
@@ -272,9 +304,12 @@ def view_kind_of(kind):
 class LeafOracle(object):
     """Leaf masks from fresh twins, one new object per (leaf, view)."""
 
-    def __init__(self, ctx, W, descs):
+    def __init__(self, ctx, W, descs, target=None):
         self.ctx, self.W, self.descs = ctx, W, descs
+        self.T = W.d if target is None else target
         self.cache = {}
+        self.nonbool = {}        # leaf index -> dtype kind of a twin's answer that was not boolean
+        self.lazy = set()        # leaf indices whose twin answered with a dask array
 
     def masks(self, needed, vid, view):
         out = {}
@@ -282,20 +317,28 @@ class LeafOracle(object):
             key = (k, vid)
             if key not in self.cache:
                 twin = L.build_leaf(self.W, self.descs[k])
+                limit = L._CHUNK_LIMIT[0]
+                L._CHUNK_LIMIT[0] = None        # twins always see glue's real chunk constant
                 try:
-                    m = self.W.d.get_mask(twin, view=view)
-                    want = tuple(self.W.shape) if view is None else np.empty(self.W.shape, dtype=bool)[view].shape
-                    if (isinstance(m, (np.ndarray, np.generic)) and np.asarray(m).dtype == bool and
-                            np.asarray(m).shape == want):
-                        self.cache[key] = ("ok", np.array(m, dtype=bool))
+                    m = self.T.get_mask(twin, view=view)
+                    shape = tuple(self.T.shape)
+                    want = shape if view is None else np.empty(shape, dtype=bool)[view].shape
+                    if np.shape(m) == want:
+                        if type(m).__module__.startswith("dask"):
+                            self.lazy.add(k)
+                        if np.asarray(m).dtype != bool:
+                            self.nonbool[k] = np.asarray(m).dtype.kind
+                        # truth values: a leaf may answer with 0/1 numbers; "selected" is what the statement is about
+                        self.cache[key] = ("ok", np.array(np.asarray(m), dtype=bool))
                     else:
-                        # e.g. a Python bool for a 0-d view, or a wrongly shaped array: how an elementary
-                        # selection answers a view is C04's business; the Boolean oracle needs boolean arrays
+                        # a wrongly shaped answer: how an elementary selection answers a view is C04's business
                         self.cache[key] = ("malformed", None)
                 except IncompatibleAttribute:
                     self.cache[key] = ("incompat", None)
                 except Exception as e:   # leaf semantics under this view are not C01's business
                     self.cache[key] = ("exc", type(e).__name__)
+                finally:
+                    L._CHUNK_LIMIT[0] = limit
             st, m = self.cache[key]
             out[k] = (st, m)
         # a leaf that fails / answers malformed under this view excludes the comparison whatever else is in the tree
@@ -305,33 +348,60 @@ class LeafOracle(object):
         return "ok", {k: m for k, (st, m) in out.items()}
 
 
-def evaluate(W, obj, view, via):
+def nonbool_diag(oracle, W, descs, needed):
+    """Names the mechanism when a part of the expression answers with a non-boolean array (the Boolean operators of
+    numpy are not defined on floats, and ~ on 0/1 integers is not a complement)."""
+    hit = sorted(k for k in needed if k in oracle.nonbool)
+    if not hit:
+        if any(k in oracle.lazy for k in needed):
+            return {"explained_by": "part_answers_with_a_dask_array"}
+        return None
+    return {"explained_by": "part_answers_with_a_non_boolean_array",
+            "leaf_classes": sorted(set(type(L.build_leaf(W, descs[k])).__name__ for k in hit)),
+            "leaf_dtype_kinds": sorted(set(oracle.nonbool[k] for k in hit))}
+
+
+def evaluate(T, obj, view, via):
     if via == "get_mask":
-        return W.d.get_mask(obj, view=view)
+        return T.get_mask(obj, view=view)
     if via == "to_mask":
-        return obj.to_mask(W.d, view=view)
-    s = Subset(W.d)
+        return obj.to_mask(T, view=view)
+    s = Subset(T)
     s.subset_state = obj
     return s.to_mask(view=view)
 
 
 class TreeRun(object):
-    def __init__(self, ctx, W, descs, tree, sched_seed_rng, label):
+    def __init__(self, ctx, W, descs, tree, sched_seed_rng, label, target="d"):
         self.ctx, self.W, self.descs, self.tree, self.rng, self.label = ctx, W, descs, tree, sched_seed_rng, label
-        self.oracle = LeafOracle(ctx, W, descs)
+        self.target = target
+        self.T = {"d": W.d, "p": W.p}[target]
+        self.shape = tuple(self.T.shape)
+        self.oracle = LeafOracle(ctx, W, descs, self.T)
         self.views = [("none", None)]
         self.evaluated = {}          # (id(obj), vid) -> count
         self.kinds = [d["k"] for d in descs]
         self.has_incompat = any(descs[k]["k"] == "incompat" for k in set(tree_leaves(tree)))
+        self.joined = any(k.startswith("join_") for k in self.kinds)
 
     def witness(self, extra):
-        w = {"world": L.describe_world(self.W), "leaves": self.descs, "tree": self.tree, "label": self.label}
+        w = {"world": L.describe_world(self.W), "leaves": self.descs, "tree": self.tree, "label": self.label,
+             "evaluated_on": self.target, "chunk_limit": L._CHUNK_LIMIT[0]}
         w.update(extra)
         return w
 
     def add_view(self):
-        kind = self.rng.choice(VIEW_KINDS[2:])
-        v = common.make_view(self.rng, self.W.shape, kind)
+        if 0 in self.shape:
+            kind = self.rng.choice(["ellipsis", "slice_tuple_full", "slice_tuple_short", "bool_mask"])
+            v = np.zeros(self.shape, dtype=bool) if kind == "bool_mask" else common.make_view(self.rng, self.shape, kind)
+            self.views.append((kind, v))
+            return len(self.views) - 1
+        if self.rng.random() < 0.3:
+            kind = self.rng.choice(L.EXT_VIEW_KINDS)
+            v = L.make_view_ext(self.rng, self.shape, kind)
+        else:
+            kind = self.rng.choice(VIEW_KINDS[2:])
+            v = common.make_view(self.rng, self.shape, kind)
         self.views.append((kind, v))
         return len(self.views) - 1
 
@@ -347,7 +417,7 @@ class TreeRun(object):
         self.evaluated[key] = self.evaluated.get(key, 0) + 1
         node_op = node.tree[0]
         try:
-            got = evaluate(W, obj, view, via)
+            got = evaluate(self.T, obj, view, via)
             exc = None
         except Exception as e:
             got, exc = None, e
@@ -362,11 +432,25 @@ class TreeRun(object):
         if st == "exc":
             ctx.count("excluded:leaf_fails_under_view:" + vkind)
             return None
+        kinds_here = set(self.kinds[k].startswith("join_") for k in needed)
+        if len(kinds_here) == 2:
+            # parts defined on the joined table mixed with parts defined on this dataset: glue evaluates a selection
+            # as a whole on one side of a key join; recorded, not judged (see notes)
+            ctx.count("mixed_native_and_joined_parts:" + ("raised_" + type(exc).__name__ if exc is not None else
+                                                          "returned_mask"))
+            return None
         if st == "malformed":
             ctx.count("excluded:leaf_result_under_view_is_not_a_boolean_array_of_the_view_shape:" + vkind)
             return None
+        full = None
+        if view is not None and has_op(node.tree, "s_asmask"):
+            st0, M0 = self.oracle.masks(needed, 0, None)
+            if st0 != "ok":
+                ctx.count("excluded:leaf_fails_under_view:none")
+                return None
+            full = (M0, view)
         try:
-            exp = ev(node.tree, M)
+            exp = ev(node.tree, M, full)
         except Exception:
             ctx.count("excluded:leaf_masks_do_not_combine_under_view:" + vkind)
             return None
@@ -379,12 +463,17 @@ class TreeRun(object):
             if repeat:
                 ctx.count("composite_reevaluated_through_same_object")
         sig = None
+        nb = nonbool_diag(self.oracle, W, self.descs, needed)
         if exc is not None:
             sig = {"kind": "exception", "exc": type(exc).__name__, "phase": phase, "node_op": node_op,
                    "where": glue_frame(exc), "view_kind": vkind}
+            if nb is not None and isinstance(exc, (TypeError, NotImplementedError)) and node_op != "leaf":
+                sig = {"kind": "exception", "exc": type(exc).__name__}
+                sig.update(nb)
             detail = {"error": repr(exc)[:300]}
         else:
-            res = judge(W, self.descs, node.tree, M, got, exp, view is None, top_copied=(phase == "copy"))
+            res = judge(W, self.descs, node.tree, M, got, exp, view is None, top_copied=(phase == "copy"),
+                        shape=self.shape)
             if res is not None:
                 kind, diag, detail = res
                 if diag["explained_by"]:
@@ -394,6 +483,9 @@ class TreeRun(object):
                     sig = {"kind": kind, "phase": phase, "node_op": node_op, "view_kind": vkind,
                            "repeat_evaluation": bool(repeat)}
                 sig.update(diag)
+                if nb is not None and not diag["explained_by"] and node_op != "leaf":
+                    sig = {"kind": kind}
+                    sig.update(nb)
         if sig is not None:
             detail.update({"view": common.describe_view(view), "via": via, "node": node.tree})
             ctx.violation(sig, self.witness(detail))
@@ -415,16 +507,27 @@ class TreeRun(object):
             for k in used:
                 if rng.random() < 0.6 and self.descs[k]["k"] != "incompat":
                     try:
-                        W.d.get_mask(leaves[k])
+                        self.T.get_mask(leaves[k])
                         self.evaluated[(id(leaves[k]), 0)] = 1
                     except Exception:
                         pass
         nodes = []
         try:
-            root = build(W, self.tree, leaves, nodes, None)
+            root = build(W, self.tree, leaves, nodes, None, self.T)
+        except IncompatibleAttribute:
+            ctx.count("excluded:incompatible_leaf_while_building")     # state_as_mask of an incompatible part
+            return
         except Exception as e:
-            ctx.violation({"kind": "exception_while_combining", "exc": type(e).__name__, "where": glue_frame(e),
-                           "root_op": self.tree[0]}, self.witness({"error": repr(e)[:300]}))
+            if any(self.oracle.masks([k], 0, None)[0] != "ok" for k in used):
+                ctx.count("excluded:leaf_fails_while_building")        # state_as_mask evaluates its operand
+                return
+            sig = {"kind": "exception_while_combining", "exc": type(e).__name__, "where": glue_frame(e),
+                   "root_op": self.tree[0]}
+            nb = nonbool_diag(self.oracle, W, self.descs, used)
+            if nb is not None and isinstance(e, (TypeError, NotImplementedError)):
+                sig = {"kind": "exception", "exc": type(e).__name__}
+                sig.update(nb)
+            ctx.violation(sig, self.witness({"error": repr(e)[:300]}))
             return
         rootnode = nodes[-1]
         comps = [n for n in nodes if not n.is_leaf]
@@ -445,6 +548,11 @@ class TreeRun(object):
             else:
                 vid = self.add_view()
             via = rng.choice(["get_mask", "get_mask", "to_mask", "subset"])
+            if via == "to_mask" and self.joined:
+                via = "get_mask"       # the key-join fallback lives in Data.get_mask, not in SubsetState.to_mask
+            if r < 0.08:
+                self.fault(node, via)
+                continue
             if r < 0.70:
                 res = self.compare(node, vid, via, "schedule")
             elif r < 0.90:
@@ -467,7 +575,7 @@ class TreeRun(object):
             ok = ok and (res is not False)
         # ---- root: full, twice through the same object
         self.compare(rootnode, 0, "get_mask", "root_full")
-        self.compare(rootnode, 0, rng.choice(["get_mask", "to_mask", "subset"]), "root_full_again")
+        self.compare(rootnode, 0, rng.choice(["get_mask", "subset"] + ([] if self.joined else ["to_mask"])), "root_full_again")
         # ---- operands: unaltered, and their masks re-read through the same objects
         for n in nodes[:-1]:
             if n.skip:
@@ -492,13 +600,45 @@ class TreeRun(object):
         for o in set(tree_ops(self.tree)):
             ctx.count("trees_with_op:" + o)
         ctx.count("tree_programs")
+        ctx.count("tree_programs:evaluated_on:" + self.target)
+        if L._CHUNK_LIMIT[0] is not None:
+            ctx.count("tree_programs:with_small_chunk_limit")
+        if self.shape and max(self.shape) >= 100:
+            ctx.count("tree_programs:table_with_100_or_more_rows")
+        for k in used:
+            if self.descs[k].get("variant"):
+                ctx.count("leaf_edge_variants_in_evaluated_trees")
+                ctx.count("leaf_edge_variant:%s:%s" % (self.descs[k]["k"], self.descs[k]["variant"]))
+            if self.descs[k].get("att") in self.W.variants:
+                ctx.count("leaf_on_column:dtype:" + self.W.variants[self.descs[k]["att"]]["dtype"])
+                ctx.count("leaf_on_column:layout:" + self.W.variants[self.descs[k]["att"]]["layout"])
         if self.has_incompat:
             ctx.count("tree_programs_with_incompatible_leaf")
-        ctx.evaluation([list(W.shape), W.coords, subst(self.tree, self.kinds)],
+        ctx.evaluation([list(W.shape), W.coords, self.target, subst(self.tree, self.kinds)],
                        depth >= 2 and len(kinds_used) >= 2 and nonconst)
         if ctx.rng.random() < 0.002:
             ctx.sample({"world": L.describe_world(W), "tree": subst(self.tree, self.kinds), "views": [
                 common.describe_view(v) for _, v in self.views]})
+
+    def fault(self, node, via):
+        """A call that fails (a view numpy rejects, a non-selection operand), followed later by valid calls on the same
+        objects: whatever the failure leaves behind must not matter.  The outcome of the failing call is not judged."""
+        kind, view = L.invalid_view(self.rng, self.shape)
+        if self.rng.random() < 0.25:
+            kind = "combine_with_non_selection"
+            try:
+                self.rng.choice([lambda: node.obj & 5, lambda: node.obj | None, lambda: MultiOrState([node.obj, "x"]).to_mask(
+                    self.T)])()
+                self.ctx.count("fault:%s:no_exception" % kind)
+            except Exception as e:
+                self.ctx.count("fault:%s:%s" % (kind, type(e).__name__))
+            return
+        try:
+            evaluate(self.T, node.obj, view, via)
+            self.ctx.count("fault:%s:no_exception" % kind)
+        except Exception as e:
+            self.ctx.count("fault:%s:%s" % (kind, type(e).__name__))
+        self.ctx.count("fault_steps")
 
     def edit_operand(self, nodes, leaves):
         """In-place edit (documented setter) of an operand object after it was combined.  Only leaves all of whose
@@ -533,17 +673,67 @@ class TreeRun(object):
         return True
 
 
-def run_tree_program(ctx, rng, max_depth, with_incompat=False, forced=None, label="random"):
-    W = forced["W"] if forced else L.make_world(rng)
+ALIGNED_KINDS = ["slice", "pixslice", "mask", "roi2d_pix", "range_pix", "empty", "slice", "pixslice"]
+
+
+def run_tree_program(ctx, rng, max_depth, with_incompat=False, forced=None, label="random", flavour=None):
+    """flavour: None (general), 'near_equal', 'aligned' (evaluated on the pixel-aligned, axis-permuted dataset),
+    'joined' (parts defined on a table joined to the dataset by a bijective key), 'large' (>= 100 rows), 'zero_size'."""
     if forced:
-        descs, tree = forced["descs"], forced["tree"]
+        TreeRun(ctx, forced["W"], forced["descs"], forced["tree"], rng, label).run()
+        return
+    shape = None
+    if flavour == "large":
+        shape = (rng.randint(100, 260),)
+    elif flavour == "joined":
+        shape = (rng.randint(2, 7),)
+    elif flavour == "zero_size":
+        shape = rng.choice([(0,), (0, 3), (2, 0), (2, 0, 3)])
+    W = L.make_world(rng, shape=shape)
+    nleaf = rng.randint(3, 8)
+    target = "d"
+    if flavour == "aligned":
+        target = "p"
+        descs = []
+        for _ in range(nleaf):
+            k = rng.choice(ALIGNED_KINDS)
+            if k == "range_pix":
+                a = rng.choice(W.names("pixel"))
+                lo, hi = L.pick_interval(rng, W, a)
+                descs.append({"k": "range", "att": a, "lo": lo, "hi": hi})
+            else:
+                descs.append(L.rand_leaf(rng, W, k))
+    elif flavour == "joined":
+        descs = [L.join_leaf(rng, W) for _ in range(nleaf)]
+        if rng.random() < 0.15:
+            descs[rng.randrange(nleaf)] = L.rand_leaf(rng, W, rng.choice(["ineq", "range", "mask"]))
     else:
-        nleaf = rng.randint(3, 8)
         descs = [L.rand_leaf(rng, W) for _ in range(nleaf)]
         if with_incompat:
             descs[rng.randrange(nleaf)] = L.rand_leaf(rng, W, "incompat")
-        tree = gen_tree(rng, rng.randint(1, max_depth), nleaf)
-    TreeRun(ctx, W, descs, tree, rng, label).run()
+    if flavour == "near_equal" or (flavour is None and rng.random() < 0.2):
+        # selections of one kind on the large-magnitude attribute whose bounds agree to a relative 1e-9..1e-7, and an
+        # equal-but-distinct twin of an existing leaf, side by side in one tree
+        first = L.close_leaf(rng, W)
+        descs[0] = first
+        descs[1] = L.near_copy(rng, W, first)
+        descs[2] = L.near_copy(rng, W, first)
+        descs.append(dict(descs[rng.randrange(len(descs))]))
+        nleaf = len(descs)
+        ctx.count("tree_programs:with_near_equal_and_equal_but_distinct_leaves")
+    tree = gen_tree(rng, rng.randint(1, max_depth), nleaf)
+    if L._CHUNK_LIMIT[0] is not None and flavour in (None, "near_equal", "large"):
+        # programs run with a tiny chunk limit contain a selection kind that is evaluated chunk by chunk
+        chunked = L.rand_leaf(rng, W, rng.choice(["roind", "roi3d"]), edge=False)
+        if chunked["k"] == "roind":
+            chunked["pre"] = rng.choice(["swap", "scale"])
+        descs.append(chunked)
+        tree = [rng.choice(["and", "or", "xor", "cls_or"]), ["leaf", len(descs) - 1], tree]
+        ctx.count("tree_programs:chunked_selection_kind_with_small_chunk_limit")
+    if flavour == "joined":
+        # state_as_mask would turn a part defined on the joined table into a mask defined on this dataset
+        tree = json.loads(json.dumps(tree).replace('"s_asmask"', '"copied"'))
+    TreeRun(ctx, W, descs, tree, rng, flavour or label, target=target).run()
 
 
 # ---------------------------------------------------------------- edit-mode programs
@@ -556,6 +746,32 @@ def small_tree(rng, nleaf_base, n_new):
     if k == "multior":
         return ["multior", [["leaf", i] for i in idx]]
     return [k, ["leaf", idx[0]], ["leaf", idx[1]]]
+
+
+class ReentrantReader(HubListener):
+    """Reads the mask of a subset from inside the message that announces its new selection (i.e. while
+    EditSubsetMode.update / new_subset_group is still on the stack) - and thereby memoises it at that moment."""
+
+    def __init__(self, hub, data):
+        self.data = data
+        self.seen = []       # (group, mask or exception)
+        hub.subscribe(self, SubsetUpdateMessage, handler=self.on_update)
+        hub.subscribe(self, SubsetCreateMessage, handler=self.on_create)
+
+    def read(self, subset):
+        if subset.data is not self.data or getattr(subset, "group", None) is None:
+            return
+        try:
+            self.seen.append((subset.group, np.array(subset.to_mask())))
+        except Exception as e:
+            self.seen.append((subset.group, e))
+
+    def on_update(self, msg):
+        if msg.attribute == "subset_state":
+            self.read(msg.subset)
+
+    def on_create(self, msg):
+        self.read(msg.subset)
 
 
 def run_edit_program(ctx, rng, max_steps):
@@ -574,6 +790,8 @@ def run_edit_program(ctx, rng, max_steps):
     combining = 0
     nsteps = rng.randint(4, max_steps)
     views = [("none", None)]
+    reader = ReentrantReader(dc.hub, d) if rng.random() < 0.5 else None
+    last_update = [None]          # (state object, model tree) of the most recent update
 
     def witness(extra):
         w = {"world": L.describe_world(W), "leaves": descs, "steps": log}
@@ -592,12 +810,16 @@ def run_edit_program(ctx, rng, max_steps):
         except Exception:
             ctx.count("excluded:leaf_masks_do_not_combine_under_view:" + vkind)
             return
+        nb = nonbool_diag(oracle, W, descs, sorted(set(tree_leaves(tree)))) if tree[0] != "leaf" else None
         try:
             got = getter(view)
         except Exception as e:
             sig = {"kind": "exception", "exc": type(e).__name__, "phase": phase, "where": glue_frame(e),
                    "view_kind": vkind}
             sig.update(extra)
+            if nb is not None and isinstance(e, (TypeError, NotImplementedError)):
+                sig = {"kind": "exception", "exc": type(e).__name__}
+                sig.update(nb)
             ctx.violation(sig, witness({"error": repr(e)[:300], "view": common.describe_view(view)}))
             return
         ctx.count("comparisons")
@@ -621,6 +843,19 @@ def run_edit_program(ctx, rng, max_steps):
             ctx.violation({"kind": "edit_group_count", "after": after, "last_update_mode": last[0]},
                           witness({"real": len(real), "model": len(groups)}))
             return False
+        if reader is not None:
+            seen, reader.seen = reader.seen, []
+            for grp, val in seen:
+                if grp not in real:
+                    continue
+
+                def stored(view, val=val):
+                    if isinstance(val, Exception):
+                        raise val
+                    return val
+                ctx.count("reads_from_inside_the_change_message")
+                cmp_mask(groups[real.index(grp)], stored, 0, "edit_read_inside_message",
+                         {"after": after, "last_update_mode": last[0]})
         for gi, (grp, tree) in enumerate(zip(real, groups)):
             via = rng.choice(["get_mask", "subset", "group_subset"])
             if via == "get_mask":
@@ -635,17 +870,70 @@ def run_edit_program(ctx, rng, max_steps):
     modes_seen = []
     for step in range(nsteps):
         r = rng.random()
-        if r < 0.25:
+        repeat = None
+        if r < 0.20:
             cur = rng.choice(list(MODES))
             mode.mode = MODES[cur]
             log.append(["mode", cur])
-        elif r < 0.40 and groups:
+        elif r < 0.24:
+            # a group created directly, without a selection, in the middle of the history (not the edit subset)
+            dc.new_subset_group(label="empty %d" % step)
+            descs.append({"k": "empty"})
+            groups.append(["leaf", len(descs) - 1])
+            log.append(["new_empty_group"])
+            ctx.count("edit_steps:new_empty_group")
+            if not check_groups("new_empty_group"):
+                return
+        elif r < 0.28 and groups:
+            # a group removed from anywhere in the list; the edit subset is then set to what is left of it
+            gi = rng.randrange(len(groups))
+            real = list(dc.subset_groups)
+            dc.remove_subset_group(real[gi])
+            groups.pop(gi)
+            edit = [i - (1 if i > gi else 0) for i in edit if i != gi]
+            real = list(dc.subset_groups)
+            mode.edit_subset = [real[i] for i in edit]
+            log.append(["remove_group", gi])
+            ctx.count("edit_steps:remove_group:" + ("last" if gi == len(groups) else "not_last"))
+            if not check_groups("remove_group"):
+                return
+        elif r < 0.31:
+            # another dataset leaves the collection and comes back
+            dc.remove(W.u)
+            dc.append(W.u)
+            log.append(["readd_dataset", "u"])
+            ctx.count("edit_steps:dataset_removed_and_appended_again")
+            if not check_groups("readd_dataset"):
+                return
+        elif r < 0.35 and len(groups) >= 2:
+            gi, gj = rng.sample(range(len(groups)), 2)
+            real = list(dc.subset_groups)
+            real[gi].paste([sub for sub in real[gj].subsets if sub.data is d][0])
+            groups[gi] = groups[gj]
+            log.append(["paste", gj, "into", gi])
+            ctx.count("edit_steps:paste")
+            if not check_groups("paste"):
+                return
+        elif r < 0.38:
+            # fault: an update that must fail, followed by ordinary steps
+            try:
+                if rng.random() < 0.5:
+                    mode.update(dc, "not a selection")
+                else:
+                    mode.update(42, SubsetState())
+                ctx.count("fault:edit_update:no_exception")
+            except Exception as e:
+                ctx.count("fault:edit_update:" + type(e).__name__)
+            log.append(["failing_update"])
+            if not check_groups("failing_update"):
+                return
+        elif r < 0.50 and groups:
             k = rng.choice([0, 1, 1, 1, 2])
             edit = sorted(rng.sample(range(len(groups)), min(k, len(groups))))
             real = list(dc.subset_groups)
             mode.edit_subset = [real[i] for i in edit]
             log.append(["edit_subset", list(edit)])
-        elif r < 0.50 and groups:
+        elif r < 0.58 and groups:
             # viewed read of one group through its subset
             gi = rng.randrange(len(groups))
             kind = rng.choice(VIEW_KINDS[2:])
@@ -655,9 +943,14 @@ def run_edit_program(ctx, rng, max_steps):
             cmp_mask(groups[gi], lambda view, grp=grp: [s for s in grp.subsets if s.data is d][0].to_mask(view=view),
                      len(views) - 1, "edit_viewed_read", {})
         else:
+            if last_update[0] is not None and rng.random() < 0.12:
+                repeat = last_update[0]        # the same selection object applied once more (possibly in another mode)
             n_new = rng.choice([1, 1, 1, 2, 2, 3])
             base = len(descs)
-            if rng.random() < 0.2:
+            if repeat is not None:
+                n_new = 0
+                ctx.count("edit_updates:same_state_object_again")
+            elif rng.random() < 0.2:
                 # a selection on the large-magnitude attribute, most often the previous one with a bound moved
                 n_new = 1
                 last_close[0] = L.close_leaf(rng, W, last_close[0] if rng.random() < 0.75 else None)
@@ -665,16 +958,20 @@ def run_edit_program(ctx, rng, max_steps):
                 ctx.count("edit_updates:close_bounds_on_large_magnitude_attribute")
             else:
                 for _ in range(n_new):
-                    descs.append(L.rand_leaf(rng, W))
-            tree = small_tree(rng, base, n_new) if n_new <= 2 else ["multior", [["leaf", base + j] for j in range(n_new)]]
-            leaves = {base + j: L.build_leaf(W, descs[base + j]) for j in range(n_new)}
-            nodes = []
-            try:
-                new_state = build(W, tree, leaves, nodes, None)
-            except Exception as e:
-                ctx.violation({"kind": "exception_while_combining", "exc": type(e).__name__, "where": glue_frame(e),
-                               "root_op": tree[0]}, witness({"error": repr(e)[:300]}))
-                return
+                    descs.append(L.rand_leaf(rng, W, "incompat") if rng.random() < 0.04 else L.rand_leaf(rng, W))
+            if repeat is not None:
+                new_state, tree = repeat
+            else:
+                tree = small_tree(rng, base, n_new) if n_new <= 2 else ["multior", [["leaf", base + j] for j in range(n_new)]]
+                leaves = {base + j: L.build_leaf(W, descs[base + j]) for j in range(n_new)}
+                nodes = []
+                try:
+                    new_state = build(W, tree, leaves, nodes, None)
+                except Exception as e:
+                    ctx.violation({"kind": "exception_while_combining", "exc": type(e).__name__, "where": glue_frame(e),
+                                   "root_op": tree[0]}, witness({"error": repr(e)[:300]}))
+                    return
+            last_update[0] = (new_state, tree)
             if rng.random() < 0.4:
                 try:
                     d.get_mask(new_state)       # memoise the incoming state before it is combined
@@ -748,6 +1045,89 @@ def run_edit_program(ctx, rng, max_steps):
     ctx.evaluation([list(W.shape), "edit", modes_seen], combining >= 2 and nonconst)
 
 
+# ---------------------------------------------------------------- many short-lived selections on one dataset
+def run_pressure(ctx, rng, n_throwaway):
+    """Thousands of distinct, short-lived selections evaluated on one dataset while a few long-lived composites are
+    re-read: the answer must not depend on how many evaluations came before (bounded caches, identity-keyed memo
+    entries of objects whose address is reused).  Throw-away selections are inequalities / ranges and their
+    complements and conjunctions, whose masks follow from the definition with numpy alone."""
+    W = L.make_world(rng, shape=rng.choice([(rng.randint(3, 9),), (rng.randint(2, 4), rng.randint(2, 4))]), extras=False)
+    d = W.d
+    names = ["v", "w", "i", "big"]
+    full = {n: np.asarray(d[W.atts[n]]) for n in names}
+    long_lived = []
+    for _ in range(5):
+        descs = [L.rand_leaf(rng, W, rng.choice(["ineq", "range", "category", "element", "ineq2", "catroi"]), edge=False)
+                 for _ in range(3)]
+        tree = gen_tree(rng, 2, 3)
+        leaves = {k: L.build_leaf(W, descs[k]) for k in set(tree_leaves(tree))}
+        try:
+            obj = build(W, tree, leaves, [], None)
+            exp = np.array(d.get_mask(obj), dtype=bool)       # first read; later reads must agree with it
+        except Exception:
+            continue
+        st, M = LeafOracle(ctx, W, descs).masks(sorted(leaves), 0, None)
+        if st != "ok" or not np.array_equal(ev(tree, M), exp):
+            continue          # judged by the tree programs, not here
+        long_lived.append((obj, tree, descs, exp))
+    views = [None, None, Ellipsis] + [common.make_view(rng, W.shape, k) for k in ("slice_tuple_full", "int_slice_mix")]
+
+    def throwaway():
+        a = rng.choice(names)
+        op = rng.choice(["gt", "ge", "lt", "le"])
+        val = L.pick_value(rng, W, a)
+        st = InequalitySubsetState(W.atts[a], val, L.OPS[op]) if rng.random() < 0.7 else None
+        if st is None:
+            hi = val + rng.choice([0.5, 1.0, 3.0])
+            return RangeSubsetState(val, hi, W.atts[a]), (full[a] >= val) & (full[a] <= hi), "range"
+        return st, L.OPS[op](full[a], val), "ineq"
+
+    for j in range(n_throwaway):
+        st, exp, what = throwaway()
+        r = rng.random()
+        if r < 0.2:
+            st, exp, what = ~st, ~exp, "not"
+        elif r < 0.4:
+            st2, exp2, _ = throwaway()
+            st, exp, what = st & st2, exp & exp2, "and"
+        view = rng.choice(views)
+        try:
+            got = np.asarray(d.get_mask(st, view=view))
+        except Exception as e:
+            ctx.violation({"kind": "exception", "exc": type(e).__name__, "phase": "pressure_throwaway", "node_op": what,
+                           "where": glue_frame(e)}, {"world": L.describe_world(W), "error": repr(e)[:300], "after": j})
+            continue
+        e_ = exp if view is None else exp[view]
+        ctx.count("comparisons")
+        ctx.count("comparisons:phase:pressure_throwaway")
+        if got.shape != np.shape(e_) or not np.array_equal(got.astype(bool), e_):
+            ctx.violation({"kind": "mask_mismatch", "phase": "pressure_throwaway", "node_op": what,
+                           "view_kind": "none" if view is None else "viewed", "explained_by": None},
+                          {"world": L.describe_world(W), "after_evaluations": j, "got": got.astype(int),
+                           "expected": np.asarray(e_).astype(int), "view": common.describe_view(view)})
+        del st
+        if j % 150 == 149:
+            for obj, tree, descs, exp0 in long_lived:
+                try:
+                    again = np.asarray(d.get_mask(obj))
+                except Exception as e:
+                    ctx.violation({"kind": "exception", "exc": type(e).__name__, "phase": "pressure_long_lived",
+                                   "node_op": tree[0], "where": glue_frame(e)}, {"error": repr(e)[:300], "after": j})
+                    continue
+                ctx.count("comparisons")
+                ctx.count("comparisons:phase:pressure_long_lived")
+                ctx.count("composite_reevaluated_through_same_object")
+                if again.shape != exp0.shape or not np.array_equal(again.astype(bool), exp0):
+                    ctx.violation({"kind": "mask_mismatch", "phase": "pressure_long_lived", "node_op": tree[0],
+                                   "view_kind": "none", "repeat_evaluation": True, "explained_by": None},
+                                  {"world": L.describe_world(W), "leaves": descs, "tree": tree, "after_evaluations": j,
+                                   "got": again.astype(int), "expected": exp0.astype(int)})
+    ctx.count("pressure_blocks")
+    ctx.count("pressure_throwaway_selections", n_throwaway)
+    ctx.count("memo_entries_seen_at_block_end", L.memo_entries())
+    ctx.evaluation(["pressure", list(W.shape), n_throwaway], True)
+
+
 # ---------------------------------------------------------------- systematic blocks
 def systematic_block(ctx, rng, kind_a):
     """Every operator over (kind_a, kind_b) for every leaf kind b constructible on the dataset."""
@@ -759,13 +1139,14 @@ def systematic_block(ctx, rng, kind_a):
             continue
         for kind_b in kinds:
             descs = [L.rand_leaf(rng, W, kind_a), L.rand_leaf(rng, W, kind_b), L.rand_leaf(rng, W, kind_a)]
-            for op in rng.sample(BINARY_NODES, 3):
-                t = [op, ["leaf", 0], ["leaf", 1]]
-                if rng.random() < 0.3:
-                    t = [rng.choice(UNARY_NODES), t]
-                TreeRun(ctx, W, descs, t, rng, "systematic").run()
-            TreeRun(ctx, W, descs, [rng.choice(UNARY_NODES), ["leaf", 0]], rng, "systematic").run()
-            t = [rng.choice(NARY_NODES), [["leaf", 0], ["leaf", 1], ["and", ["leaf", 2], ["leaf", 1]]][:rng.randint(1, 3)]]
+            t = [rng.choice(BINARY_NODES), ["leaf", 0], ["leaf", 1]]
+            if rng.random() < 0.3:
+                t = [rng.choice(UNARY_NODES + IDENT_NODES), t]
+            TreeRun(ctx, W, descs, t, rng, "systematic").run()
+            if rng.random() < 0.5:
+                t = [rng.choice(UNARY_NODES + IDENT_NODES), ["leaf", 0]]
+            else:
+                t = [rng.choice(NARY_NODES), [["leaf", 0], ["leaf", 1], ["and", ["leaf", 2], ["leaf", 1]]][:rng.randint(1, 3)]]
             TreeRun(ctx, W, descs, t, rng, "systematic").run()
     ctx.count("systematic_blocks")
 
@@ -773,34 +1154,53 @@ def systematic_block(ctx, rng, kind_a):
 ALL_LEAF_KINDS = L.LEAF_KINDS_ANY + L.LEAF_KINDS_1D + L.LEAF_KINDS_WORLD
 
 
+FLAVOURS = [None, None, None, "near_equal", "aligned", "aligned", None, "joined", None, "large", None, "zero_size"]
+N_PRESSURE = {"quick": (8, 1200), "thorough": (40, 4000)}
+
+
 def cases(tier, seed):
-    for k in ALL_LEAF_KINDS:
-        yield ["sys", k]
+    # interleaved, so that a run cut short by the time budget still has its share of every class
+    sys_cases = [["sys", k] for k in ALL_LEAF_KINDS]
+    pressure = [["pressure", i] for i in range(N_PRESSURE[tier][0])]
     nt, ne = N_TREE_BLOCKS[tier], N_EDIT_BLOCKS[tier]
     for i in range(max(nt, ne)):
+        if i % 5 == 0 and sys_cases:
+            yield sys_cases.pop(0)
+        if i % 17 == 3 and pressure:
+            yield pressure.pop(0)
         if i < nt:
             yield ["tree", i]
         if i < ne:
             yield ["edit", i]
+    for c in sys_cases + pressure:
+        yield c
 
 
 def setup(ctx):
-    pass
+    L.set_chunk_limit(None)
 
 
 def run_case(ctx, case):
     L.clear_memo_caches()
+    L.set_chunk_limit(None)
     rng = ctx.rng
     md = MAX_DEPTH[ctx.tier]
     if case[0] == "sys":
         systematic_block(ctx, rng, case[1])
+    elif case[0] == "pressure":
+        run_pressure(ctx, rng, N_PRESSURE[ctx.tier][1])
     elif case[0] == "tree":
-        for j in range(TREES_PER_BLOCK):
-            run_tree_program(ctx, rng, md, with_incompat=(j == 0 and case[1] % 4 == 0))
+        flavour = FLAVOURS[case[1] % len(FLAVOURS)]
+        for j in range(TREES_PER_BLOCK if flavour != "large" else 2):
+            # the chunk constant of the chunked code paths is internal: a fifth of the programs run with tiny chunks
+            L.set_chunk_limit(rng.choice([1, 2, 3, 7]) if rng.random() < 0.2 else None)
+            run_tree_program(ctx, rng, md, with_incompat=(j == 0 and case[1] % 4 == 0 and flavour is None),
+                             flavour=flavour)
+        L.set_chunk_limit(None)
         ctx.count("memo_entries_seen_at_block_end", L.memo_entries())
     else:
         for _ in range(EDITS_PER_BLOCK):
-            run_edit_program(ctx, rng, 9 if ctx.tier == "quick" else 12)
+            run_edit_program(ctx, rng, 10 if ctx.tier == "quick" else 14)
 
 
 def floors(counters, tier):
@@ -825,7 +1225,27 @@ def floors(counters, tier):
               "operand_edited_after_combining"):
         if c(k, 0) < 10:
             out.append("fewer than 10 %s" % k)
-    for v in set(VIEW_KINDS) - {"none"}:
+    for v in (set(VIEW_KINDS) - {"none"}) | set(L.EXT_VIEW_KINDS):
         if c("comparisons:view:" + v, 0) < 10:
             out.append("fewer than 10 comparisons under view kind %s" % v)
+    # classes added in the adversarial widening round
+    for k, need in (("tree_programs:with_near_equal_and_equal_but_distinct_leaves", 20),
+                    ("tree_programs:evaluated_on:p", 20), ("tree_programs:with_small_chunk_limit", 20),
+                    ("tree_programs:chunked_selection_kind_with_small_chunk_limit", 10),
+                    ("tree_programs:table_with_100_or_more_rows", 3), ("leaf_edge_variants_in_evaluated_trees", 100),
+                    ("pressure_throwaway_selections", 1000), ("comparisons:phase:pressure_long_lived", 20),
+                    ("fault_steps", 100), ("reads_from_inside_the_change_message", 100),
+                    ("edit_steps:new_empty_group", 10), ("edit_steps:dataset_removed_and_appended_again", 10),
+                    ("edit_updates:same_state_object_again", 10), ("edit_updates:close_bounds_on_large_magnitude_attribute", 20),
+                    ("leaf_on_column:layout:F", 20), ("leaf_on_column:layout:reversed", 20),
+                    ("leaf_on_column:layout:strided", 20), ("leaf_on_column:layout:broadcast", 10),
+                    ("leaf_on_column:layout:dask", 5), ("leaf_on_column:dtype:float32", 10), ("leaf_on_column:dtype:>f8", 10),
+                    ("leaf_on_column:dtype:uint8", 10)):
+        if c(k, 0) < need:
+            out.append("fewer than %d %s" % (need, k))
+    if c("edit_steps:remove_group:last", 0) + c("edit_steps:remove_group:not_last", 0) < 10:
+        out.append("fewer than 10 group removals")
+    joined = sum(v for k, v in counters.items() if k.startswith("trees_with_leaf_kind:join_"))
+    if joined < 10:
+        out.append("fewer than 10 trees over parts defined on the joined table")
     return out
